@@ -1520,3 +1520,63 @@ MUTANTS += [
       edits=[(MS, "\tif s.verifyPending {\n\t\t// Nothing of this file goes out before the verdict on the receiver's last\n\t\t// complete chunk is in: a re-send of that chunk must be the first thing\n\t\t// sent, because the receiver does not count it among its missing chunks.\n\t\treturn 0, 0, false\n\t}\n\tif s.scheduleDone {\n\t\tif s.resendPending {\n\t\t\tidx := s.resendChunk\n\t\t\ts.resendPending = false\n\t\t\ts.inFlight++\n\t\t\treturn idx, chunkSizeForIndex(s.item.Size, s.chunkSize, idx), true\n\t\t}\n\t\treturn 0, 0, false\n\t}\n", '\tif s.verifyPending || s.scheduleDone {\n\t\t// Nothing goes out before the verdict is in; once the schedule is exhausted\n\t\t// there is nothing left to hand out (a re-send is only ever decided for a\n\t\t// chunk the cursor has not passed).\n\t\treturn 0, 0, false\n\t}\n'),
              (MS, 'bitmap.Get(int(vChunk)) && vChunk >= state.nextChunk {', 'bitmap.Get(int(vChunk)) {')]),
 ]
+
+# --- round 11 rules ---
+MUTANTS += [
+ dict(id='R11-routing-not-for-the-servers-name', props=['C10'], expect='R-BROADCAST-UNADDRESSED-ONLY/broadcast-unaddressed/',
+      edits=[(TS, '\t\tif env.To != "" {\n\t\t\t// Targeted send\n', '\t\tif env.To != "" && env.To != protocol.ServerPeerID {\n\t\t\t// Targeted send\n')]),
+ dict(id='R11-benign-routing-on-a-copy', props=['C10', 'C11'], expect='SILENT',
+      edits=[(TS, '\t\tif env.To != "" {\n\t\t\t// Targeted send\n\t\t\tsent := hub.SendTo(sess.ID, env.To, env)\n', '\t\tif to := env.To; to != "" {\n\t\t\t// Targeted send\n\t\t\tsent := hub.SendTo(sess.ID, to, env)\n')]),
+ dict(id='R11-pong-pushes-a-fixed-minute', props=['C16'], expect='R-PONG-EXTENDS-DEADLINE/pong-extends/',
+      edits=[(TS, '\t\tconn.SetPongHandler(func(string) error {\n\t\t\tconn.SetReadDeadline(time.Now().Add(limits.wsIdleTimeout))\n', '\t\tconn.SetPongHandler(func(string) error {\n\t\t\tconn.SetReadDeadline(time.Now().Add(time.Minute))\n')]),
+ dict(id='R11-benign-pong-handler-named', props=['C16', 'C14'], expect='SILENT',
+      edits=[(TS, '\t\tconn.SetPongHandler(func(string) error {\n\t\t\tconn.SetReadDeadline(time.Now().Add(limits.wsIdleTimeout))\n\t\t\treturn nil\n\t\t})\n', '\t\tpushDeadline := func(string) error {\n\t\t\tconn.SetReadDeadline(time.Now().Add(limits.wsIdleTimeout))\n\t\t\treturn nil\n\t\t}\n\t\tconn.SetPongHandler(pushDeadline)\n')]),
+ dict(id='R11-flush-unlinks-before-rename', props=['C05'], expect='R-ATOMIC-REPLACE/sidecar-fs/',
+      edits=[(SC, '\tif err := os.Rename(temp, s.Path); err != nil {\n', '\t_ = os.Remove(s.Path)\n\tif err := os.Rename(temp, s.Path); err != nil {\n')]),
+]
+
+MUTANTS += [
+ dict(id='R11-benign-duplicate-test-on-a-copy', props=['C03', 'C17'], expect='SILENT',
+      edits=[(MP, '\t\tif _, dup := seen[item.RelPath]; dup {', '\t\trel := item.RelPath\n\t\tif _, dup := seen[rel]; dup {'),
+             (MP, '\t\tseen[item.RelPath] = struct{}{}', '\t\tseen[rel] = struct{}{}')]),
+ dict(id='R11-duplicate-test-on-cleaned-path', props=['C03'], expect='R-PATHS-DISTINCT/paths-distinct/refused',
+      edits=[(MP, '\t\tif _, dup := seen[item.RelPath]; dup {', '\t\trel := strings.TrimSuffix(item.RelPath, "/")\n\t\tif _, dup := seen[rel]; dup {'),
+             (MP, '\t\tseen[item.RelPath] = struct{}{}', '\t\tseen[rel] = struct{}{}')]),
+]
+
+# --- R-JSON-KEYS decides a struct response and a typed client field (round 11) ---
+MUTANTS += [
+ dict(id='R11-benign-session-response-struct-omitempty', props=['C16', 'C14'], expect='SILENT',
+      edits=[(TS, '\t\tresponse := map[string]interface{}{\n\t\t\t"session_id": sess.ID,\n\t\t\t"join_code":  sess.JoinCode,\n\t\t}\n\t\tif !sess.ExpiresAt.IsZero() {\n\t\t\tresponse["expires_at"] = sess.ExpiresAt.Format(time.RFC3339)\n\t\t}\n', '\t\tresponse := struct {\n\t\t\tSessionID string `json:"session_id"`\n\t\t\tJoinCode  string `json:"join_code"`\n\t\t\tExpiresAt string `json:"expires_at,omitempty"`\n\t\t}{\n\t\t\tSessionID: sess.ID,\n\t\t\tJoinCode:  sess.JoinCode,\n\t\t}\n\t\tif !sess.ExpiresAt.IsZero() {\n\t\t\tresponse.ExpiresAt = sess.ExpiresAt.Format(time.RFC3339)\n\t\t}\n')]),
+ dict(id='R11-benign-client-decodes-time-server-omits', props=['C16'], expect='SILENT',
+      edits=[('internal/clienthttp/client.go', '\t\tExpiresAt string `json:"expires_at"` // RFC3339 string\n\t}\n', '\t\tExpiresAt time.Time `json:"expires_at"`\n\t}\n'), ('internal/clienthttp/client.go', '\tif sessionResp.ExpiresAt != "" {\n\t\tparsed, parseErr := time.Parse(time.RFC3339, sessionResp.ExpiresAt)\n\t\tif parseErr != nil {\n\t\t\treturn "", "", time.Time{}, fmt.Errorf("parse expires_at: %w", parseErr)\n\t\t}\n\t\texpiresAt = parsed\n\t}\n', '\texpiresAt = sessionResp.ExpiresAt\n')]),
+ dict(id='R11-session-response-struct-empty-string-client-guards', props=['C16'], expect='SILENT',
+      edits=[(TS, '\t\tresponse := map[string]interface{}{\n\t\t\t"session_id": sess.ID,\n\t\t\t"join_code":  sess.JoinCode,\n\t\t}\n\t\tif !sess.ExpiresAt.IsZero() {\n\t\t\tresponse["expires_at"] = sess.ExpiresAt.Format(time.RFC3339)\n\t\t}\n', '\t\tresponse := struct {\n\t\t\tSessionID string `json:"session_id"`\n\t\t\tJoinCode  string `json:"join_code"`\n\t\t\tExpiresAt string `json:"expires_at"`\n\t\t}{\n\t\t\tSessionID: sess.ID,\n\t\t\tJoinCode:  sess.JoinCode,\n\t\t}\n\t\tif !sess.ExpiresAt.IsZero() {\n\t\t\tresponse.ExpiresAt = sess.ExpiresAt.Format(time.RFC3339)\n\t\t}\n')]),
+ dict(id='R11-session-response-struct-and-typed-client', props=['C16'], expect='R-JSON-KEYS/session-response/key/expires_at',
+      edits=[(TS, '\t\tresponse := map[string]interface{}{\n\t\t\t"session_id": sess.ID,\n\t\t\t"join_code":  sess.JoinCode,\n\t\t}\n\t\tif !sess.ExpiresAt.IsZero() {\n\t\t\tresponse["expires_at"] = sess.ExpiresAt.Format(time.RFC3339)\n\t\t}\n', '\t\tresponse := struct {\n\t\t\tSessionID string `json:"session_id"`\n\t\t\tJoinCode  string `json:"join_code"`\n\t\t\tExpiresAt string `json:"expires_at"`\n\t\t}{\n\t\t\tSessionID: sess.ID,\n\t\t\tJoinCode:  sess.JoinCode,\n\t\t}\n\t\tif !sess.ExpiresAt.IsZero() {\n\t\t\tresponse.ExpiresAt = sess.ExpiresAt.Format(time.RFC3339)\n\t\t}\n'), ('internal/clienthttp/client.go', '\t\tExpiresAt string `json:"expires_at"` // RFC3339 string\n\t}\n', '\t\tExpiresAt time.Time `json:"expires_at"`\n\t}\n'), ('internal/clienthttp/client.go', '\tif sessionResp.ExpiresAt != "" {\n\t\tparsed, parseErr := time.Parse(time.RFC3339, sessionResp.ExpiresAt)\n\t\tif parseErr != nil {\n\t\t\treturn "", "", time.Time{}, fmt.Errorf("parse expires_at: %w", parseErr)\n\t\t}\n\t\texpiresAt = parsed\n\t}\n', '\texpiresAt = sessionResp.ExpiresAt\n')]),
+]
+
+# --- F79 (a cancelled --dumb-tcp transfer stops sending) ---
+MUTANTS += [
+ dict(id='F79-undo-close-on-cancel', props=['C12'], expect='R-DUMB-WRITE-CANCELLABLE/dumb-write/app.(*SnapshotSender).runDumbTCPTransfer',
+      edits=[(SS, '\tstopClose := context.AfterFunc(ctx, func() { _ = conn.Close() })\n\tdefer stopClose()\n', '')]),
+ dict(id='F79-closes-the-listener-instead', props=['C12'], expect='R-DUMB-WRITE-CANCELLABLE/dumb-write/app.(*SnapshotSender).runDumbTCPTransfer',
+      edits=[(SS, '\tstopClose := context.AfterFunc(ctx, func() { _ = conn.Close() })\n\tdefer stopClose()\n', '\tstopClose := context.AfterFunc(ctx, func() { _ = listener.Close() })\n\tdefer stopClose()\n')]),
+ dict(id='F79-close-on-the-background-context', props=['C12'], expect='R-DUMB-WRITE-CANCELLABLE/dumb-write/app.(*SnapshotSender).runDumbTCPTransfer',
+      edits=[(SS, '\tstopClose := context.AfterFunc(ctx, func() { _ = conn.Close() })\n\tdefer stopClose()\n', '\tstopClose := context.AfterFunc(context.Background(), func() { _ = conn.Close() })\n\tdefer stopClose()\n')]),
+ dict(id='F79-benign-stop-not-deferred', props=['C12', 'C03'], expect='SILENT',
+      edits=[(SS, '\tstopClose := context.AfterFunc(ctx, func() { _ = conn.Close() })\n\tdefer stopClose()\n', '\tcontext.AfterFunc(ctx, func() { _ = conn.Close() })\n')]),
+]
+
+# --- F80 (questions asked off the read loop) ---
+MUTANTS += [
+ dict(id='F80-undo-questions-in-the-loop', props=['C16'], expect='R-PROMPT-OFF-READLOOP/prompt-off-readloop/sync/',
+      edits=[(SR, '\t\t\tgo func(summary protocol.ManifestSummary, sessionID, senderID string) {\n', '\t\t\tfunc(summary protocol.ManifestSummary, sessionID, senderID string) {\n')]),
+ dict(id='F80-repeated-offer-accepts-unanswered', props=['C16'], expect='R-PROMPT-OFF-READLOOP/prompt-off-readloop/gate/',
+      edits=[(SR, '\t\tif !r.acceptAnswered.Load() {\n\t\t\t// still at the prompt: the answer accepts, not a repeated offer\n\t\t\treturn\n\t\t}\n', '')]),
+ dict(id='F80-answered-before-the-questions', props=['C16'], expect='R-PROMPT-OFF-READLOOP/prompt-off-readloop/gate/',
+      edits=[(SR, '\t\t\t\tr.acceptAnswered.Store(true)\n\t\t\t\tr.sendAcceptTo(sessionID, senderID, summary.ManifestID)\n', '\t\t\t\tr.sendAcceptTo(sessionID, senderID, summary.ManifestID)\n'),
+             (SR, '\t\t\t\treader := bufio.NewReader(os.Stdin)\n\t\t\t\taccepted, err := promptAccept(reader)\n', '\t\t\t\tr.acceptAnswered.Store(true)\n\t\t\t\treader := bufio.NewReader(os.Stdin)\n\t\t\t\taccepted, err := promptAccept(reader)\n')]),
+ dict(id='F80-benign-accept-sent-before-flag', props=['C16', 'C06', 'C07'], expect='SILENT',
+      edits=[(SR, '\t\t\t\tr.acceptAnswered.Store(true)\n\t\t\t\tr.sendAcceptTo(sessionID, senderID, summary.ManifestID)\n', '\t\t\t\tr.sendAcceptTo(sessionID, senderID, summary.ManifestID)\n\t\t\t\tr.acceptAnswered.Store(true)\n')]),
+]
